@@ -100,8 +100,32 @@ func init() {
 		fs.Parse(args)
 		rng := rand.New(rand.NewSource(*seed))
 		rep := NewReport()
+		// keys of one process are not independent draws: every third key shares a stretch (its first 8 / 32 bytes, its last 8
+		// bytes, or all but one byte) with the key used just before - whatever the code remembers about a key must be about
+		// the whole key
+		var prevKey []byte
+		relatedNote := ""
 		bindCommon := func(env *term.Env, n int, midMod int64) (key []byte, salt, sid, mid int64, seq int32, body []byte) {
 			key = randBytes(rng, 256)
+			relatedNote = ""
+			if prevKey != nil && rng.Intn(3) == 0 {
+				switch rng.Intn(4) {
+				case 0:
+					copy(key[:8], prevKey[:8])
+					relatedNote = " (key shares its first 8 bytes with the key used before)"
+				case 1:
+					copy(key[:32], prevKey[:32])
+					relatedNote = " (key shares its first 32 bytes with the key used before)"
+				case 2:
+					copy(key[248:], prevKey[248:])
+					relatedNote = " (key shares its last 8 bytes with the key used before)"
+				case 3:
+					copy(key, prevKey)
+					key[8+rng.Intn(240)] ^= 1 << uint(rng.Intn(8))
+					relatedNote = " (key differs from the key used before in one bit)"
+				}
+			}
+			prevKey = key
 			salt, sid, mid = pick64(rng), pick64(rng), midWithMod4(rng, midMod)
 			seq = int32(rng.Intn(1<<20)) * 2
 			if rng.Intn(8) == 0 {
@@ -244,7 +268,7 @@ func init() {
 					info["class"] = cls
 					rep.Sample(info)
 					if fail != "" {
-						rep.Disagree("C03:"+cls, fail, info)
+						rep.Disagree("C03:"+cls, fail+relatedNote, info)
 					}
 				}
 				return nil
@@ -291,7 +315,11 @@ func init() {
 					}
 					base := []byte(nil)
 					if mutation == "rekey" {
-						env.Vars["auth_key"] = term.Bytes(randBytes(rng, 256))
+						other := randBytes(rng, 256)
+						if rng.Intn(2) == 0 { // a foreign key that begins like the session's key is a foreign key all the same
+							copy(other[:8], key[:8])
+						}
+						env.Vars["auth_key"] = term.Bytes(other)
 						base = build("pkt")
 						env.Vars["auth_key"] = term.Bytes(key)
 					} else if mutation == "otherdir" {
